@@ -25,7 +25,7 @@ from asl.flow import find_path, node_defs, pretty_path, reaching
 from asl.loader import AnalysisError, norm, own_nodes
 from asl.values import mentions
 from . import c01
-from .common import make_resolver
+from .common import make_resolver, Relabel
 from .common import present_units as _present
 from .lru import enumerate_paths
 
@@ -78,6 +78,9 @@ def run(ctx) -> None:
     from . import c09
     ctx.rule("R05.7", "tee: a child with buffered items yields them without waiting for the lock (R09.2)")
     c09.lock_free_service(ctx, "R05.7")
+    ctx.rule("R05.17", "tee: a child that had to wait for the lock tests its buffer again before it asks the source: no item is "
+                       "taken that no child requested (R09.2, shared)")
+    c09.run(Relabel(ctx, "R05.17", only=("R09.2",)))
     from . import c16
     ctx.rule("R05.8", "groupby: pulling an item and computing its key are one step (after a failed or cancelled key call the item "
                       "is not left behind as if it had been keyed) (R16.3, shared)")
@@ -89,7 +92,6 @@ def run(ctx) -> None:
     ctx.floor("tee_operations", 1000)
     objmodel.groupby_histories(ctx, "R05.13", depth=6, consumption=True)  # (R16.8 shared, plus: items taken after every operation)
     ctx.floor("groupby_operations", 1500)
-    from .common import Relabel
     ctx.rule("R05.12", "groupby: a group the parent has moved past ends at once, without pulling from the source or calling key (R16.1, shared)")
     if c16.cursor_is_single_slot(ctx, "R05.8"):
         names16 = c16.Names(ctx)
@@ -102,6 +104,10 @@ def run(ctx) -> None:
     from . import tooltables
     tooltables.tool_tables(ctx, "R05.11")  # (shared with R01.12: items taken and callable invocations per cell)
     ctx.floor("tool_cells_decided", 340)
+    ctx.rule("R05.16", "the adapter that every tool puts around a synchronous source asks it for one item per step - also a "
+                       "collection that produces its items when asked is never read ahead (table over both kinds of source, R03.3 shared)")
+    tooltables.sync_wrapper_table(ctx, "R05.16")
+    ctx.floor("adapter_table_cells_decided", 8)
     ctx.floor("tools", 20)
     ctx.floor("pull_sites", 15)
     ctx.floor("short_circuit_cells", 6)
